@@ -46,13 +46,15 @@ structure FileJ where
   perrs : Nat
   spans : List SpanM
   text : Bytes
+  lns : Lines      -- the lines of `text` (what the client sees: the buffer of an open file, else the disk)
+  diskLns : Lines  -- the lines of the file on disk
 
 structure Sess where
   mode : String
   trees : Array Journal
   files : List FileJ
   root : Path
-  resolveds : Array (Option Resolved × Path)
+  resolveds : Array (Option Resolved × Path × Bool)   -- resolved journal, primary path, workspace view?
 
 def spanOf (j : Json) : SpanM := match j with
   | .arr a => ⟨⟨(match asNat a[0]! with | 0 => Kind.account | 1 => Kind.commodity | _ => Kind.payee),
@@ -60,14 +62,18 @@ def spanOf (j : Json) : SpanM := match j with
       asStr a[6]!, asNat a[7]!⟩
   | _ => default
 
+def decodeText (b : Bytes) : List Char := ((String.fromUTF8? (ByteArray.mk b.toArray)).getD "").toList
+
 def decodeSess (j : Json) : Sess :=
   let trees := (jarr j "trees").map journalOf
   let tr (i : Nat) : Journal := trees[i]?.getD default
   let files := (jarr j "files").toList.map fun f =>
     let buf := jget f "buf"
+    let text := if buf.isNull then jhex f "disk" else unhx buf
     { path := jstr f "path", how := jstr f "how", tree := jnat f "tree", diskTree := jnat f "diskTree",
       perrs := jnat f "perrs", spans := (jarr f "spans").toList.map spanOf,
-      text := if buf.isNull then jhex f "disk" else unhx buf : FileJ }
+      text := text, lns := HL.Text.lines (decodeText text),
+      diskLns := HL.Text.lines (decodeText (jhex f "disk")) : FileJ }
   let resOf := fun (r : Json) => (if r.isNull then none else
       some { primary := if (jget r "primary").isNull then none else some (tr (jnat r "primary")),
              files := (jarr r "files").toList.map (fun kv => match kv with
@@ -75,10 +81,15 @@ def decodeSess (j : Json) : Sess :=
                | _ => ("", default)),
              order := (jarr r "order").toList.map asStr } : Option Resolved)
   -- per requesting file: the workspace's journal with its root path, the journal stored for the
-  -- document's URI; the MODEL chooses (`resolvedWithPrimaryPath`)
+  -- document's URI; the MODEL chooses (`resolvedWithPrimaryPath`), and with the journal the texts
+  -- positions are converted with (workspace view: the buffers of the open files)
   let resolveds := (jarr j "resolveds").map fun e =>
     let wsv : Option (Resolved × Path) := (resOf (jget e "ws")).map fun r => (r, jstr e "wsroot")
-    resolvedWithPrimaryPath wsv (resOf (jget e "own")) (jstr e "cur")
+    let c := resolvedWithPrimaryPath wsv (resOf (jget e "own")) (jstr e "cur")
+    let usedWs := match wsv with
+      | some (r, root) => wsContains r root (jstr e "cur")
+      | none => false
+    (c.1, c.2, usedWs)
   { mode := jstr j "mode", trees := trees, files := files, root := jstr j "root", resolveds := resolveds }
 
 /-- The request was answered from the journal resolved for the document itself (no workspace,
@@ -124,13 +135,23 @@ def reqOf (j : Json) : ReqJ :=
   { cur := jstr j "cur", pos := lposOf (jget j "pos"), incl := jbool j "incl", newName := jhex j "new",
     res := jnat j "res", cj := jnat j "cj", scope := (jarr j "scope").toList.map asStr }
 
+def fileOf (s : Sess) (p : Path) : Option FileJ := s.files.find? (·.path == p)
+
+/-- The `fileMappers` of `resolvedWithPrimaryPath`: with the workspace view the buffer of every
+    open file, otherwise the buffer of the requesting document only; every other file as read
+    from disk (no lines for an unknown path). -/
+def textsOfSess (s : Sess) (q : ReqJ) : Texts := fun p =>
+  let wsView := (s.resolveds[q.res]?.map (·.2.2)).getD false
+  match fileOf s p with
+  | some f => if wsView || p == q.cur then f.lns else f.diskLns
+  | none => []
+
 def mkRequest (s : Sess) (q : ReqJ) : Request :=
-  let (res, pp) := s.resolveds[q.res]?.getD (none, q.cur)
-  { curJournal := s.trees[q.cj]?.getD default, resolved := res, primaryPath := pp, pos := q.pos }
+  let (res, pp, _) := s.resolveds[q.res]?.getD (none, q.cur, false)
+  { curJournal := s.trees[q.cj]?.getD default, resolved := res, primaryPath := pp, pos := q.pos,
+    curLines := textsOfSess s q q.cur, texts := textsOfSess s q }
 
 /-! ### The oracle -/
-
-def fileOf (s : Sess) (p : Path) : Option FileJ := s.files.find? (·.path == p)
 
 /-- The ground truth of a request, from the generator's spans. -/
 def truthTarget (s : Sess) (q : ReqJ) : Option Span :=
@@ -142,17 +163,20 @@ def truthFiles (s : Sess) (q : ReqJ) : List (Path × List Span) :=
   q.scope.filterMap fun p => (fileOf s p).map fun f => (p, f.spans.map (·.sp))
 
 /-- What the syntax trees the server holds say (tree nodes instead of generator spans). -/
-def viewFiles (s : Sess) (view : List (Path × Nat)) : List (Path × List Span) :=
-  view.map fun (p, i) => (p, treeNodes (s.trees[i]?.getD default))
+def viewFiles (s : Sess) (q : ReqJ) (view : List (Path × Nat)) : List (Path × List Span) :=
+  view.map fun (p, i) => (p, treeNodes (textsOfSess s q p) (s.trees[i]?.getD default))
 
 def sameLocs (a b : List Loc) : Bool := sortLocs a == sortLocs b
+
+/-- Equality as sets: `sortAndDedup` merges equal locations, and the nodes of a tree that is
+    converted with a text it was not parsed from (the stale-snapshot findings) can collide. -/
+def sameLocSet (a b : List Loc) : Bool := sortLocs a.eraseDups == sortLocs b.eraseDups
 
 def hasFlag (sp : SpanM) (f : Nat) : Bool := (sp.flags / f) % 2 == 1
 
 /-- Why a generator span and the tree node at the same ordinal differ. -/
 def reasonOfSpan (sp : SpanM) : Option String :=
   if sp.site == "D" || sp.site == "format" then some "unranged-commodity-site"
-  else if hasFlag sp 1 then some "utf16-columns"
   else if sp.site == "payee" && hasFlag sp 8 then some "payee-range-estimate"
   else if (sp.site == "comdir" || sp.site == "price") && hasFlag sp 2 then some "quoted-commodity-directive"
   else if hasFlag sp 4 then some "text-commodity-trailing-blank"
@@ -208,7 +232,8 @@ structure Verdict where
 /-- Judge one answer (a set of locations) of the implementation. -/
 def judge (s : Sess) (j : Json) (q : ReqJ) (incl : Bool) (implLocs : List Loc) (implNone : Bool := false) : Verdict :=
   let scopeFiles := q.scope.filterMap (fileOf s)
-  let curOk := match fileOf s q.cur with | some f => f.perrs == 0 | none => false
+  -- the cursor must be a position of the text (hypothesis `cursorOK` of the theorems)
+  let curOk := match fileOf s q.cur with | some f => f.perrs == 0 && cursorOKB f.lns q.pos | none => false
   let inDomain := curOk && scopeFiles.all (·.perrs == 0)
   if !inDomain then ⟨true, false, [], ""⟩ else
   let tt := truthTarget s q
@@ -219,12 +244,12 @@ def judge (s : Sess) (j : Json) (q : ReqJ) (incl : Bool) (implLocs : List Loc) (
   if sameLocs implLocs truth then ⟨true, true, [], ""⟩ else
   -- not what the property demands: is it one of the known findings?
   let view := (resolvedIdx j q.res).getD [(q.cur, q.cj)]
-  let cjNodes := treeNodes (s.trees[q.cj]?.getD default)
+  let cjNodes := treeNodes (textsOfSess s q q.cur) (s.trees[q.cj]?.getD default)
   let nt := spanAt cjNodes q.pos
   let excused : List Loc := match nt with
     | none => []
-    | some sp => occurrences (viewFiles s view) sp.kind sp.name incl
-  if !sameLocs implLocs excused then
+    | some sp => occurrences (viewFiles s q view) sp.kind sp.name incl
+  if !sameLocSet implLocs excused then
     ⟨false, true, [], s!"locations differ from the occurrences (truth {truth.length}, answer {implLocs.length}) and from what the held trees explain"⟩
   else
     -- every difference between `truth` and `excused` must have a known reason
@@ -254,7 +279,7 @@ def judge (s : Sess) (j : Json) (q : ReqJ) (incl : Bool) (implLocs : List Loc) (
               -- a stale or missing tree only matters when the symbol occurs in either version
               some (if rs.contains r then rs else r :: rs)
             | none =>
-              match explainFile f.spans (treeNodes (s.trees[f.tree]?.getD default)) k n with
+              match explainFile f.spans (treeNodes f.lns (s.trees[f.tree]?.getD default)) k n with
               | none => none
               | some r2 => some (r2.foldl (fun a r => if a.contains r then a else r :: a) rs)) (some [])
     let extra := view.filter fun (p, _) => !q.scope.contains p
@@ -268,11 +293,11 @@ def judge (s : Sess) (j : Json) (q : ReqJ) (incl : Bool) (implLocs : List Loc) (
 
 /-- Judge the answer of prepareRename. -/
 def judgePrep (s : Sess) (q : ReqJ) (impl : Option LRange) : Verdict :=
-  let curOk := match fileOf s q.cur with | some f => f.perrs == 0 | none => false
+  let curOk := match fileOf s q.cur with | some f => f.perrs == 0 && cursorOKB f.lns q.pos | none => false
   if !curOk then ⟨true, false, [], ""⟩ else
   let tt := truthTarget s q
   if impl == tt.map (·.range) then ⟨true, true, [], ""⟩ else
-  let nt := spanAt (treeNodes (s.trees[q.cj]?.getD default)) q.pos
+  let nt := spanAt (treeNodes (textsOfSess s q q.cur) (s.trees[q.cj]?.getD default)) q.pos
   if impl != nt.map (·.range) then ⟨false, true, [], "prepareRename range is not the lexeme under the cursor"⟩ else
   let curSpans := (fileOf s q.cur).map (·.spans) |>.getD []
   let rs := ((curSpans.filter fun x => x.sp.range.start.line == q.pos.line).filterMap reasonOfSpan).eraseDups
@@ -285,7 +310,6 @@ def idxOfU16 : List Char → Nat → Nat
   | [], _ => 0
   | c :: cs, n => if n = 0 then 0 else 1 + idxOfU16 cs (n - u16w c)
 
-def decodeText (b : Bytes) : List Char := ((String.fromUTF8? (ByteArray.mk b.toArray)).getD "").toList
 def encodeText (l : List Char) : Bytes := (String.ofList l).toUTF8.toList
 
 def splitOn (l : List Char) : List (List Char) :=
